@@ -876,6 +876,9 @@ class ModuleVistor(NodeVisitor):
         if is_property:
             # handle property and skip child nodes.
             attr = self._handlePropertyDef(node, doc_node, lineno)
+            # The docstring of a property is the one of its function, 
+            # not a string literal that follows the definition.
+            self.builder.currentAttr = None
             if is_classmethod:
                 attr.report(f'{attr.fullName()} is both property and classmethod')
             if is_staticmethod:
